@@ -45,6 +45,8 @@ def gen_case(rng):
             else:
                 p['w'] = rng.choice(circgen.FREQS)
     wmax = base * (rng.randint(0, 5) + 0.5)
+    if base in (1.0, 0.5, 2.0, 50.0) and rng.random() < 0.4:
+        wmax = base * rng.randint(0, 5)          # w_max exactly on a harmonic (k*w0 <= w_max includes it); exact in binary64 for these bases
     return case, wmax
 
 
@@ -143,7 +145,7 @@ def examine(ctx, cases):
         elif len(ws) != len(merged) or any(abs(a - b) > 1e-9 * max(1.0, abs(b)) for a, b in zip(ws, merged)):
             ctx.violation('C09:wrong-frequency-list', f'impl {ws} expected {merged}', rep)
         ctx.count(f'frequencies:{min(len(ws), 8)}')
-        if near:
+        if near or not ws or len(ws) != len(merged):
             continue
         # ---- spectral lines / time functions
         sols = [phasors(case, w) for w in ws]
